@@ -1,6 +1,6 @@
 """Model library, part 2: more Option/Result combinators, Ord::cmp, Arc, Range, Vec::extend, format!."""
 import re
-from translate import Translator, Loc, VScalar, VRef, VLoc, VAgg, VUnit, VConst, TranslateError, StructN, ScalarN, UnitN, sub
+from translate import Translator, Loc, VScalar, VRef, VLoc, VAgg, VUnit, VConst, TranslateError, StructN, ScalarN, UnitN, RefN, sub
 from models import model, rx, REG, _opt_loc, _arr, self_loc, eq_expr, panic, zero_default
 from rtypes import parse_type
 
@@ -298,6 +298,41 @@ def m_abs_diff(tr, c):
     c.ret(VScalar(f"(({a.expr}) > ({b.expr}) ? ({a.expr}) - ({b.expr}) : ({b.expr}) - ({a.expr}))", a.ctype))
 
 
+def t_vec_intoiter(tr, ty, name, dims, storage, g):
+    s_ = StructN(ty, name, dims, storage, "VecIntoIter")
+    s_.fields.append(RefN(None, name + "_vec", dims, storage))
+    s_.names.append("vec")
+    s_.fields.append(ScalarN(None, name + "_pos", dims, storage, "usize"))
+    s_.names.append("pos")
+    return s_
+
+
+@model("<Vec as IntoIterator>::into_iter", doc="by-value Vec iteration: elements in order")
+def m_vec_into_iter(tr, c):
+    v = c.args[0]
+    a = v.loc if isinstance(v, VLoc) else _arr(tr, v)
+    d = c.dest()
+    if not (d.node.kind == "struct" and d.node.tag == "VecIntoIter"):
+        raise TranslateError(f"Vec::into_iter into {d.node.name}")
+    tr.store(Loc(d.node.f("vec"), d.idxs), VRef(a.node, a.idxs))
+    tr.emit(f"{tr.lv(Loc(d.node.f('pos'), d.idxs))} = 0;")
+
+
+def m_vec_intoiter_next(tr, c):
+    itl = tr.deref(c.args[0])
+    a = tr.deref(VLoc(Loc(itl.node.f("vec"), itl.idxs)))
+    pos = tr.lv(Loc(itl.node.f("pos"), itl.idxs))
+    ln = tr.lv(Loc(a.node.len, a.idxs))
+    d = c.dest()
+    n = d.node
+    si, ni = n.vindex("Some"), n.vindex("None")
+    pc = tr.tmp("usize", "posc")
+    tr.emit(f"{pc} = ({pos} < {a.node.cap}) ? {pos} : 0;")
+    tr.emit(f"if ({pos} < {ln}) {{ {tr.lv(Loc(n.discr, d.idxs))} = {si};")
+    tr.copy(Loc(n.variants[si][1].fields[0], d.idxs), Loc(a.node.elem, a.idxs + [pc]))
+    tr.emit(f"{pos} = {pos} + 1; }} else {{ {tr.lv(Loc(n.discr, d.idxs))} = {ni}; }}")
+
+
 def t_cell(tr, ty, name, dims, storage, g):
     """Cell<T> / RefCell<T> (single-threaded interior mutability): the value itself"""
     return tr.alloc(ty.args[0], name, dims, storage, g)
@@ -320,3 +355,12 @@ def m_cell_new(tr, c):
 def install(tr):
     tr.type_models.setdefault("Range", t_range)
     tr.type_models.setdefault("Cell", t_cell)
+    old_into = tr.type_models.get("IntoIter")
+
+    def intoiter_dispatch(tr_, ty, name, dims, storage, g):
+        if "vec" in ty.full:
+            return t_vec_intoiter(tr_, ty, name, dims, storage, g)
+        if old_into:
+            return old_into(tr_, ty, name, dims, storage, g)
+        raise TranslateError(f"no IntoIter model for {ty.full}")
+    tr.type_models["IntoIter"] = intoiter_dispatch
